@@ -16,6 +16,7 @@ package primitive
 
 import (
 	"fmt"
+	"io"
 )
 
 // SupportedProtocolVersions returns a slice containing all the protocol versions supported by this library.
@@ -203,4 +204,32 @@ func CheckValidFailureCode(c FailureCode) error {
 		return fmt.Errorf("invalid failure code: %v", c)
 	}
 	return nil
+}
+
+// readContent reads exactly length bytes of a length-prefixed notation. The length comes from the wire: contents larger
+// than one chunk are read chunk by chunk, so that a declared length with no data behind it cannot make the reader
+// allocate (and zero) gigabytes before it notices that the bytes are missing.
+func readContent(source io.Reader, length int32) ([]byte, error) {
+	const chunkSize = 1 << 20
+	if length <= chunkSize {
+		decoded := make([]byte, length)
+		_, err := io.ReadFull(source, decoded)
+		return decoded, err
+	}
+	decoded := make([]byte, 0, chunkSize)
+	for len(decoded) < int(length) {
+		n := int(length) - len(decoded)
+		if n > chunkSize {
+			n = chunkSize
+		}
+		start := len(decoded)
+		decoded = append(decoded, make([]byte, n)...)
+		if _, err := io.ReadFull(source, decoded[start:]); err != nil {
+			if err == io.EOF && start > 0 {
+				err = io.ErrUnexpectedEOF
+			}
+			return nil, err
+		}
+	}
+	return decoded, nil
 }
